@@ -25,7 +25,7 @@ import sys
 sys.path.insert(0, os.environ.get("CATTRS_SRC", "/repo/src"))
 
 from harness import framework, gen, lean, streams, terms  # noqa: E402
-from harness.datapath import Session, cfg_name, make_converter, reply_canon, reply_kind  # noqa: E402
+from harness.datapath import Session, cfg_name, leaf_iterated, make_converter, reply_canon, reply_kind  # noqa: E402
 from harness.realise import Unrepresentable  # noqa: E402
 
 from cattrs import BaseConverter, Converter, UnstructureStrategy  # noqa: E402
@@ -202,7 +202,7 @@ def commonise_world(w):
 
 def my_worlds(chk, drv, n_worlds):
     """like streams.worlds; 3 worlds in 4 hold attrs classes / dataclasses only and are commonised"""
-    G = gen.Gen(chk.rng, unions=True, nt=True)
+    G = gen.Gen(chk.rng, unions=True, nt=True, coercible=True)
     made = attempts = 0
     while made < n_worlds and attempts < n_worlds * 3:
         attempts += 1
@@ -418,6 +418,9 @@ def run(chk: framework.Check):
                 else:
                     chk.note("un:both-raise")
                 for cfg, ri in ((cG, uG), (cB, uB)):
+                    if cfg["gen"] and not cfg["tuple"] and gen.tuple_on_cycle(w, set(gen.type_classes(ty))):
+                        chk.note("un:recursive-class-through-hetero-tuple(region of F60: model not compared)")
+                        continue
                     rm = S.model_un(cfg, ty, x)
                     km = reply_kind(rm)
                     if km == "unmodelled":
@@ -430,10 +433,9 @@ def run(chk: framework.Check):
                 for kind, p, pv in streams.payloads(chk, G, S, w, uG[1]):
                     maps = maps_at_cls(w, ty, p)
                     sc = drv.ask("C06SCOPE %s %s %s" % (terms.cfg_sx(cG), terms.ty_sx(ty), terms.obj_sx(p)))
-                    # (the two walkers differ on str/bytes payloads at collection positions -- Lean: not iterated, answered
-                    # `unmodelled` by ST; Python: iterated into characters.  ST follows only the member a union hook picks,
-                    # the hypothesis looks at every member, so below a union only the direction "Python holds, Lean does
-                    # not" is compared)
+                    # (both walkers iterate str/bytes payloads at collection positions into characters / ints.  ST follows
+                    # only the member a union hook picks, the hypothesis looks at every member, so below a union only the
+                    # direction "Python holds, Lean does not" is compared)
                     if (not tup and sc[3:4] != ("1" if maps else "0")
                             and (maps or not gen.reach_unions(w, ty))
                             and reply_kind(S.model_st(dict(cG, detailed=False), ty, p)) != "unmodelled"):
@@ -473,6 +475,9 @@ def run(chk: framework.Check):
                                     continue
                                 rm = S.model_st(cfg, ty, p)
                                 km = reply_kind(rm)
+                                if leaf_iterated(w, cfg, ty, p):
+                                    # a str / bytes payload at an iterating position (iterated into characters / ints)
+                                    chk.note("st:str-bytes-iterated:" + ("unmodelled" if km == "unmodelled" else "compared:" + oi[0]))
                                 if km == "unmodelled":
                                     chk.unmodelled += 1
                                     continue
